@@ -12,6 +12,7 @@ import Driver.Wire
 import Driver.Convert
 import Driver.Stream
 import Driver.Lookup
+import Driver.Registry
 
 open Panrpc
 
@@ -69,6 +70,7 @@ structure St where
   bc : Bc.State := Bc.init
   stm : St.State := St.init []
   lk : Driver.Lk.LkState := {}
+  rg : RgQ.RgSt := {}
   dead : Bool := false     -- a previous line of this trace was rejected
 
 def handle (st : St) (line : String) : St × String :=
@@ -94,6 +96,10 @@ def handle (st : St) (line : String) : St × String :=
   | "rw" :: rest => (st, RwQ.remoteDefQuery rest)
   | "wire" :: rest => (st, WireQ.wireQuery rest)
   | "cv" :: rest => (st, Driver.Cv.convertQuery rest)
+  | "rg" :: "run" :: rest => (st, RgQ.registryQuery ("run" :: rest))
+  | "rg" :: rest =>
+    let (rg', ans, ok) := RgQ.rgHandle st.rg rest
+    ({ st with rg := rg', dead := st.dead || !ok }, ans)
   | "lk" :: rest =>
     let (lk', a) := Driver.Lk.lookupStep st.lk rest
     ({ st with lk := lk' }, a)
